@@ -907,3 +907,172 @@ Proof.
     + cbn [weight matches b2n]. reflexivity.
     + cbn [weight]. reflexivity.
 Qed.
+
+(* ------------------------------------------------------------------ equal counts = equal lists up to order *)
+Definition ckey_of (n : notifier) : ckey :=
+  match n with
+  | NUser k _ => CK (AUser k)
+  | NMaint m g k => CK (AMaint m g k)
+  | NForeign i => CF i
+  end.
+Lemma weight_pos_inv c n : 0 < weight c n -> ckey_of n = c.
+Proof.
+  destruct c as [a|i], n as [k rc|m g k|j]; cbn [weight ckey_of]; try lia.
+  - destruct (matches a (NUser k rc)) eqn:M; [|lia]. apply matches_spec in M. cbn in M. congruence.
+  - destruct (matches a (NMaint m g k)) eqn:M; [|cbn; lia]. apply matches_spec in M. cbn in M. congruence.
+  - destruct (Nat.eqb i j) eqn:E; [|cbn; lia]. apply Nat.eqb_eq in E. congruence.
+Qed.
+Lemma weight_own n : posb [n] = true -> 0 < weight (ckey_of n) n.
+Proof.
+  destruct n as [k rc|m g k|j]; cbn [posb forallb weight ckey_of matches].
+  - rewrite key_eqb_refl, andb_true_r. apply Nat.ltb_lt.
+  - intros _. replace (mkind_eqb m m) with true by (symmetry; apply mkind_eqb_spec; reflexivity).
+    replace (graph_eqb g g) with true by (symmetry; apply graph_eqb_spec; reflexivity).
+    rewrite key_eqb_refl. cbn. lia.
+  - intros _. rewrite Nat.eqb_refl. cbn. lia.
+Qed.
+Lemma cnt_pos_in c l : 0 < cnt c l -> exists n, In n l /\ 0 < weight c n.
+Proof.
+  induction l as [|m r IH]; cbn [cnt]; [lia|]. intros Hc.
+  destruct (Nat.eq_dec (weight c m) 0) as [Z|Z].
+  - destruct IH as (n & Hn & W); [lia|]. exists n. split; [right; exact Hn|exact W].
+  - exists m. split; [left; reflexivity|lia].
+Qed.
+Lemma cnt_mid c l1 n l2 : cnt c (l1 ++ n :: l2) = weight c n + cnt c (l1 ++ l2).
+Proof. rewrite !cnt_app. cbn [cnt]. lia. Qed.
+Lemma posb_mid l1 n l2 : posb (l1 ++ n :: l2) = true -> posb [n] = true /\ posb (l1 ++ l2) = true.
+Proof.
+  unfold posb. rewrite !forallb_app. cbn [forallb].
+  intros E. apply andb_true_iff in E. destruct E as [E1 E2].
+  apply andb_true_iff in E2. destruct E2 as [E2 E3]. rewrite E1, E2, E3. split; reflexivity.
+Qed.
+Lemma uniqb_mid l1 n l2 : uniqb (l1 ++ n :: l2) = true -> uniqb (l1 ++ l2) = true.
+Proof.
+  induction l1 as [|m l1 IH]; cbn [app uniqb]; intros U; apply andb_true_iff in U; destruct U as [Um U].
+  - exact U.
+  - rewrite (IH U), andb_true_r. destruct m as [k rc| |]; try reflexivity.
+    apply negb_true_iff in Um. apply negb_true_iff. rewrite existsb_app in *. cbn [existsb] in Um.
+    apply orb_false_iff in Um. destruct Um as [A B]. apply orb_false_iff in B. destruct B as [_ B].
+    rewrite A, B. reflexivity.
+Qed.
+Lemma uniq_user_cnt k rc l : uniqb l = true -> In (NUser k rc) l -> cnt (CK (AUser k)) l = rc.
+Proof.
+  induction l as [|m r IH]; intros U Hin; [destruct Hin|].
+  cbn [uniqb] in U. apply andb_true_iff in U. destruct U as [Um Ur]. cbn [cnt]. destruct Hin as [->|Hin].
+  - apply negb_true_iff in Um. rewrite (nomatch_cnt _ _ Um). cbn [weight matches].
+    rewrite key_eqb_refl. lia.
+  - rewrite (IH Ur Hin). destruct m as [k' rc'|m' g' k'|j]; cbn [weight matches b2n]; try lia.
+    destruct (key_eqb k k') eqn:Q; [|lia]. apply key_eqb_spec in Q. subst k'.
+    apply negb_true_iff in Um. assert (existsb (matches (AUser k)) r = true) as X.
+    { apply existsb_exists. exists (NUser k rc). split; [exact Hin|]. cbn. apply key_eqb_refl. }
+    congruence.
+Qed.
+
+Lemma posb_cons n r : posb (n :: r) = posb [n] && posb r.
+Proof. unfold posb. cbn [forallb]. rewrite andb_true_r. reflexivity. Qed.
+
+Lemma cnt_perm : forall l l', posb l = true -> uniqb l = true -> posb l' = true -> uniqb l' = true ->
+  (forall c, cnt c l = cnt c l') -> Permutation l l'.
+Proof.
+  induction l as [|n r IH]; intros l' P U P' U' C.
+  - destruct l' as [|n' r']; [constructor|]. exfalso.
+    assert (posb [n'] = true) as Pn.
+    { rewrite posb_cons in P'. apply andb_true_iff in P'. apply P'. }
+    pose proof (weight_own n' Pn) as W. specialize (C (ckey_of n')). cbn [cnt] in C. lia.
+  - assert (posb [n] = true /\ posb r = true) as [Pn Pr].
+    { rewrite posb_cons in P. apply andb_true_iff in P. exact P. }
+    assert (uniqb r = true) as Ur by (cbn [uniqb] in U; apply andb_true_iff in U; apply U).
+    pose proof (weight_own n Pn) as W.
+    destruct (cnt_pos_in (ckey_of n) l') as (n' & Hin' & W').
+    { rewrite <- C. cbn [cnt]. lia. }
+    assert (n' = n) as ->.
+    { pose proof (weight_pos_inv _ _ W') as K.
+      destruct n as [k rc|m g k|j], n' as [k' rc'|m' g' k'|j']; cbn [ckey_of] in K; try congruence.
+      inversion K; subst k'. f_equal.
+      rewrite <- (uniq_user_cnt k rc' l' U' Hin').
+      rewrite <- (uniq_user_cnt k rc (NUser k rc :: r) U (or_introl eq_refl)). symmetry. apply C. }
+    destruct (in_split _ _ Hin') as (l1 & l2 & ->).
+    apply Permutation_cons_app. destruct (posb_mid _ _ _ P') as [_ P12].
+    apply IH; [exact Pr|exact Ur|exact P12|apply (uniqb_mid _ _ _ U')|].
+    intros c. specialize (C c). cbn [cnt] in C. rewrite cnt_mid in C. lia.
+Qed.
+
+Definition wfH (H : hooks) : Prop := posH H /\ uniqH H.
+Lemma same_counts_perm H H' : wfH H -> wfH H' -> (forall o c, cntH H' o c = cntH H o c) ->
+  forall o, Permutation (H' o) (H o).
+Proof. intros [P U] [P' U'] C o. apply cnt_perm; auto. intros c. apply C. Qed.
+
+(* ------------------------------------------------------------------ final forms *)
+Lemma run_wf h ops s tr s' : wfH (st_hooks s) -> run h s ops = (tr, s') -> wfH (st_hooks s').
+Proof.
+  intros [P U] R. split; [apply (accounting h ops s tr s' P R)|apply (run_uniq h ops s tr s' U R)].
+Qed.
+Lemma step_wf h s o s' ob : wfH (st_hooks s) -> step h s o = (s', ob) -> wfH (st_hooks s').
+Proof.
+  intros [P U] S. split; [apply (step_spec _ _ _ _ _ P S)|apply (step_uniq _ _ _ _ _ U S)].
+Qed.
+Lemma wf_empty : wfH (fun _ => []).
+Proof. split; intros o; reflexivity. Qed.
+
+Lemma balanced_identity_perm h ops s tr s' : wfH (st_hooks s) -> run h s ops = (tr, s') ->
+  Permutation (ok_regs tr) (ok_unregs tr) ->
+  forall o, Permutation (st_hooks s' o) (st_hooks s o).
+Proof.
+  intros W R B. apply same_counts_perm; [exact W|apply (run_wf _ _ _ _ _ W R)|].
+  apply (balanced_identity h ops s tr s' (proj1 W) R B).
+Qed.
+
+Lemma failure_atomic_perm h s o s' ob : wfH (st_hooks s) -> step h s o = (s', ob) ->
+  o_out ob <> None -> forall o', Permutation (st_hooks s' o') (st_hooks s o').
+Proof.
+  intros W S N. apply same_counts_perm; [exact W|apply (step_wf _ _ _ _ _ W S)|].
+  apply (failure_atomic_cnt h s o s' ob (proj1 W) S N).
+Qed.
+
+Lemma extra_unregister_perm h s x hd dp gs s' ob : wfH (st_hooks s) ->
+  (exists o c, cntH (st_hooks s) o c < gsum h (hd, x, dp) gs x o c) ->
+  step h s (Unregister x hd dp gs) = (s', ob) ->
+  (exists y, o_out ob = Some y /\
+             ((forall g, In g gs -> snd (plan h (hd, x, dp) false g x) = false) -> y = NotifierNotFound))
+  /\ forall o, Permutation (st_hooks s' o) (st_hooks s o).
+Proof.
+  intros W X S. destruct (extra_unregister h s x hd dp gs s' ob (proj1 W) X S) as [E C].
+  split; [exact E|]. apply same_counts_perm; [exact W|apply (step_wf _ _ _ _ _ W S)|exact C].
+Qed.
+
+Lemma change_calls h s o f s' ob k : wfH (st_hooks s) -> step h s (Change o f) = (s', ob) ->
+  ncalls k (o_calls ob) = if alive s k && (0 <? cntH (st_hooks s) (o, f) (CK (AUser k))) then 1 else 0.
+Proof.
+  intros [P U] S. cbn [step] in S. inversion S; subst. cbn [o_calls]. apply calls_count; [apply P|apply U].
+Qed.
+
+Lemma calls_in_between h ops s tr s1 o f s2 ob k : wfH (st_hooks s) ->
+  run h s ops = (tr, s1) -> step h s1 (Change o f) = (s2, ob) ->
+  cntH (st_hooks s) (o, f) (CK (AUser k)) = 0 ->
+  ncalls k (o_calls ob) =
+    if alive s1 k && (sigs_cnt h (ok_unregs tr) (o, f) (CK (AUser k)) <? sigs_cnt h (ok_regs tr) (o, f) (CK (AUser k)))
+    then 1 else 0.
+Proof.
+  intros W R S Z. rewrite (change_calls h s1 o f s2 ob k (run_wf _ _ _ _ _ W R) S).
+  destruct (accounting h ops s tr s1 (proj1 W) R) as [_ E]. specialize (E (o, f) (CK (AUser k))).
+  rewrite Z in E.
+  replace (sigs_cnt h (ok_unregs tr) (o, f) (CK (AUser k)) <? sigs_cnt h (ok_regs tr) (o, f) (CK (AUser k)))
+    with (0 <? cntH (st_hooks s1) (o, f) (CK (AUser k))); [reflexivity|].
+  destruct (0 <? cntH (st_hooks s1) (o, f) (CK (AUser k))) eqn:A; symmetry.
+  - apply Nat.ltb_lt in A. apply Nat.ltb_lt. lia.
+  - apply Nat.ltb_ge in A. apply Nat.ltb_ge. lia.
+Qed.
+
+Lemma register_outcome h s x hd dp gs s' ob : posH (st_hooks s) ->
+  step h s (Register x hd dp gs) = (s', ob) ->
+  (o_out ob = None <-> forall g, In g gs -> snd (plan h (hd, x, dp) false g x) = false)
+  /\ (forall y, o_out ob = Some y -> y = ValueError).
+Proof.
+  intros P S. cbn [step] in S.
+  destruct (apply_observers h (hd, x, dp) false gs x (st_hooks s)) as [H e] eqn:A. inversion S; subst.
+  cbn [o_out]. destruct (apply_observers_spec _ _ _ _ _ _ _ _ P A) as [_ R]. destruct e as [y|].
+  - destruct R as [_ [[-> (g & Hg & T)]|[_ Q]]]; [|discriminate]. split.
+    + split; [discriminate|]. intros F. rewrite (F g Hg) in T. discriminate.
+    + intros y [= <-]. reflexivity.
+  - split; [split; [intros _; apply R|reflexivity]|discriminate].
+Qed.
